@@ -56,7 +56,7 @@ Theorem C09_sum_is_ring_sum :
   forall l s m, esa_sum_exact l = Some (s, m) ->
     den R rO rI radd rmul ropp w s
       = rsum R rO radd (map (fun x => rmul (ofZ R rO rI radd rmul ropp (2 ^ (snd x - m))) (den R rO rI radd rmul ropp w (fst x))) l)
-    /\ (forall x, In x l -> m <= snd x) /\ In m (map snd l).
+    /\ (forall x, In x l -> q4_is_zero (fst x) = false -> m <= snd x) /\ In m (map snd l).
 Proof. exact den_sum_exact. Qed.
 
 (* reduction never changes the represented value, ends irreducible, and terminates *)
